@@ -40,6 +40,19 @@ func (n *node[T]) Append(v ref.Val)  { n.col.Append(n.to(v)) }
 func (n *node[T]) Get(i int) ref.Val { return n.from(n.col.Row(i)) }
 func (n *node[T]) Kind() string      { return n.kind }
 
+// ArrAppender: the bulk append of the library column.
+type ArrAppender interface {
+	AppendArr(vs []ref.Val)
+}
+
+func (n *node[T]) AppendArr(vs []ref.Val) {
+	xs := make([]T, len(vs))
+	for i, v := range vs {
+		xs[i] = n.to(v)
+	}
+	n.col.AppendArr(xs)
+}
+
 // Setter is implemented by columns whose rows can be overwritten in place through the exported
 // memory of the library column (slice-typed columns, the Values of LowCardinality and Enum), i.e.
 // without Reset and without changing the row count.
@@ -329,7 +342,21 @@ func swapHalves(b []byte) []byte {
 	return o
 }
 
-func dayToTime(d int64) time.Time { return time.Unix(d*86400, 0).UTC() }
+// dayToTime: day 0 is handed over as Go's zero time.Time, which every conversion of the library
+// maps to 0 (a caller's "no time").
+func dayToTime(d int64) time.Time {
+	if d == 0 {
+		return time.Time{}
+	}
+	return time.Unix(d*86400, 0).UTC()
+}
+
+func secToTime(s int64) time.Time {
+	if s == 0 {
+		return time.Time{}
+	}
+	return time.Unix(s, 0)
+}
 func timeToDay(t time.Time) int64 {
 	s := t.Unix()
 	d := s / 86400
@@ -419,12 +446,12 @@ func init() {
 		to:   func(v ref.Val) time.Time { return dayToTime(int64(int32(le(v.B, 4)))) },
 		from: func(t time.Time) ref.Val { return ref.Leaf(putLE(uint64(timeToDay(t)), 4)) }})
 	regLeaf(leafDef[time.Time]{typ: "DateTime", kind: "ColDateTime", mk: func() proto.ColumnOf[time.Time] { return new(proto.ColDateTime) },
-		to:   func(v ref.Val) time.Time { return time.Unix(int64(le(v.B, 4)), 0) },
+		to:   func(v ref.Val) time.Time { return secToTime(int64(le(v.B, 4))) },
 		from: func(t time.Time) ref.Val { return ref.Leaf(putLE(uint64(t.Unix()), 4)) }})
 	regLeaf(leafDef[time.Time]{typ: "DateTime('UTC')", kind: "ColDateTime(UTC)", mk: func() proto.ColumnOf[time.Time] {
 		return &proto.ColDateTime{Location: time.UTC}
 	},
-		to:   func(v ref.Val) time.Time { return time.Unix(int64(le(v.B, 4)), 0) },
+		to:   func(v ref.Val) time.Time { return secToTime(int64(le(v.B, 4))) },
 		from: func(t time.Time) ref.Val { return ref.Leaf(putLE(uint64(t.Unix()), 4)) }})
 	for _, p := range []int{0, 3, 6, 9} {
 		p := p
@@ -437,6 +464,9 @@ func init() {
 			mk: func() proto.ColumnOf[time.Time] { return new(proto.ColDateTime64).WithPrecision(proto.Precision(p)) },
 			to: func(v ref.Val) time.Time {
 				x := int64(le(v.B, 8))
+				if x == 0 {
+					return time.Time{}
+				}
 				s, f := x/pow, x%pow
 				if f < 0 {
 					s--
